@@ -553,9 +553,16 @@ func condAtomsOfExpr(a *Atoms) []string {
 		if strings.HasPrefix(l, "\"") && len(l) > 2 {
 			out = append(out, "lit:"+l)
 		}
+		// numbers a value is compared with are thresholds: a new threshold is a new decision
+		if len(l) > 0 && (l[0] >= '0' && l[0] <= '9' || l[0] == '-') {
+			out = append(out, "lit:"+l)
+		}
 	}
 	for id := range a.Idents {
 		if strings.HasPrefix(id, "global:") {
+			out = append(out, id)
+		}
+		if strings.HasPrefix(id, "const:") && id != "const:.true" && id != "const:.false" && id != "const:.iota" {
 			out = append(out, id)
 		}
 		if strings.HasPrefix(id, "<") {
